@@ -4,7 +4,14 @@ import itertools
 import numpy as np
 
 
+def _finite(A, y):
+    # LAPACK's dgelsd can loop forever (uninterruptibly) on NaN / overflowing input
+    if not (np.isfinite(A).all() and np.isfinite(y).all()):
+        raise ValueError("non-finite input to the least-squares oracle")
+
+
 def lstsq_ref(A, y):
+    _finite(A, y)
     x, _, rank, sv = np.linalg.lstsq(A, y, rcond=None)
     r = y - A @ x
     return x, r, rank, sv
@@ -16,6 +23,7 @@ def nnls_enum(A, y):
     The problem is convex; its optimum is the unconstrained optimum on the support of the
     solution, hence the best feasible unconstrained sub-solution over all supports.
     """
+    _finite(A, y)
     m, n = A.shape
     best = (float(np.linalg.norm(y)), np.zeros(n), ())
     for k in range(1, n + 1):
